@@ -59,7 +59,8 @@ def run(prop, tier, seed, replay):
     # verdict
     for tag, line, outdir in spec_fail[:3]:
         cid = line.split()[0]
-        case = next((c for c in open(os.path.join(outdir, "cases.txt")).read().split("\n") if c.split(" ")[0] == cid), "")
+        src_file = "soak.txt" if cid.startswith("soak") else "cases.txt"
+        case = next((c for c in open(os.path.join(outdir, src_file)).read().split("\n") if c.split(" ")[0] == cid), "")
         v.violation("specfail-%s-%s.txt" % (tag, cid), "# C17: implementation digest differs from the definition (profile %s): %s\n%s" % (tag, line, case),
                     "implementation differs from the definition: " + line[:200])
     if not spec_fail and st["broken"]:
